@@ -456,8 +456,27 @@ fn do_step(s: &mut Sess, step: &Value) -> Option<Value> {
 	None
 }
 
+/// the session contains a compressor whose ratio is (or is set to) exactly 0 - infinite expansion, known finding D25
+fn compressor_ratio_zero(sc: &Value) -> bool {
+	let mut last_is_comp = false;
+	for st in sc["steps"].as_array().unwrap() {
+		match st["act"].as_str().unwrap() {
+			"add_track" | "add_send" if p(st, 0) % 9 != 0 => {
+				last_is_comp = p(st, 0) % 9 == 4;
+				if last_is_comp && p(st, 1) % 4 == 2 {
+					return true;
+				}
+			}
+			"fx_cmd" if last_is_comp && p(st, 0) % 4 == 1 => return true,
+			_ => {}
+		}
+	}
+	false
+}
+
 fn run_scenario(sc: Value) -> Vec<Value> {
 	let mut evs = vec![];
+	let cr0 = compressor_ratio_zero(&sc);
 	let c = &sc["cfg"];
 	let g = |k: &str| c[k].as_u64().unwrap() as usize;
 	let cap = CAPS[g("cap") % 3];
@@ -501,7 +520,7 @@ fn run_scenario(sc: Value) -> Vec<Value> {
 				}
 				m["mix_bad"] = json!(mix_bad);
 				let stop = m["panicked"] == true;
-				evs.push(json!({"a": "cb", "m": m, "after": step["act"]}));
+				evs.push(json!({"a": "cb", "m": m, "after": step["act"], "compressor_ratio_zero": cr0}));
 				if stop {
 					break;
 				}
